@@ -45,9 +45,9 @@ def smul_axioms():
     """smul(q, w) = q*w for q >= 0, w >= 0, stated without multiplication: unfolding, and the two consequences of
     induction the proofs need (monotone in q with step w; non-negative).  validate_native checks them against q*w."""
     q, r, w = z3.Ints("q!sm r!sm w!sm")
+    # (the unfolding smul(q, w) == smul(q - 1, w) + w is NOT a quantified axiom - its instances create the next term and
+    #  E-matching would loop; lib_models adds the one-step instances for every GROUND application instead)
     return [z3.ForAll([w], smul(0, w) == 0, patterns=[smul(0, w)]),
-            z3.ForAll([q, w], z3.Implies(q >= 1, smul(q, w) == smul(q - 1, w) + w), patterns=[smul(q, w)]),
-            z3.ForAll([q, w], z3.Implies(q >= 0, smul(q + 1, w) == smul(q, w) + w), patterns=[smul(q + 1, w)]),
             z3.ForAll([q, r, w], z3.Implies(z3.And(0 <= q, q < r, w >= 0), smul(q, w) + w <= smul(r, w)),
                       patterns=[z3.MultiPattern(smul(q, w), smul(r, w))]),
             z3.ForAll([q, w], z3.Implies(z3.And(q >= 0, w >= 0), smul(q, w) >= 0), patterns=[smul(q, w)])]
